@@ -147,7 +147,7 @@ impl Prop for C13 {
             match self.http_probe(challenge.as_deref()) {
                 Ok(r) => Some(r),
                 // plumbing failure of the harness itself: not an observation about the property
-                Err(e) => return Exec::new("infra").tag(format!("infra:{e}")),
+                Err(e) => return Exec { infra: Some(e), ..Default::default() },
             }
         } else {
             iroh_relay::server::verif_hooks::no_content(challenge.as_deref())
